@@ -62,12 +62,16 @@ func SentinelClientMiddleware(opts ...Option) middleware.Middleware {
 				slotChain := sentinel.BuildDefaultSlotChain()
 				slotChain.AddRuleCheckSlot(outlier.DefaultSlot)
 				slotChain.AddStatSlot(outlier.DefaultMetricStatSlot)
-				entry, _ := sentinel.Entry(
+				entry, blockErr := sentinel.Entry(
 					resourceName,
 					sentinel.WithResourceType(base.ResTypeRPC),
 					sentinel.WithTrafficType(base.Outbound),
 					sentinel.WithSlotChain(slotChain),
 				)
+				if blockErr != nil {
+					// entry is nil when the request is blocked: do not invoke the handler
+					return options.BlockFallback(ctx, req, blockErr)
+				}
 				defer entry.Exit()
 
 				if v, ok := metadata.FromClientContext(ctx); ok {
@@ -84,9 +88,10 @@ func SentinelClientMiddleware(opts ...Option) middleware.Middleware {
 				res, err := src(ctx, req)
 				if p, ok := selector.FromPeerContext(ctx); ok && p.Node != nil {
 					sentinel.TraceCallee(entry, p.Node.Address())
-					if err != nil {
-						sentinel.TraceError(entry, err)
-					}
+				}
+				if err != nil {
+					// trace the error even when no node was picked
+					sentinel.TraceError(entry, err)
 				}
 				return res, err
 			}
